@@ -241,7 +241,7 @@ func trigger(events []Event) string {
 	set := map[string]bool{}
 	for _, e := range events {
 		switch e.K {
-		case "open", "accept", "deliver", "deliverByte":
+		case "open", "accept", "deliver", "deliverByte", "deliverN":
 		case "read", "write":
 			if e.N == 0 {
 				set[e.K+"(0)"] = true
@@ -591,11 +591,15 @@ func summariseGoroutines(dump string) string {
 	return strings.Join(out, "; ")
 }
 
-// reportHang is called by the watchdog goroutine; it never returns.
+// reportHang is called by the watchdog goroutine; it returns only when no
+// execution is in flight.
 func reportHang(t *testing.T, r *vr.Report, prop string) {
 	var flights []*inflight
 	inflightMap.Range(func(_, v interface{}) bool { flights = append(flights, v.(*inflight)); return true })
 	sort.Slice(flights, func(i, j int) bool { return flights[i].id < flights[j].id })
+	if len(flights) == 0 {
+		return // nothing is executing (the driver itself is busy): not a hang of the code under test
+	}
 	fmt.Printf("WATCHDOG: no execution finished for %s; %d execution(s) in flight; re-executing in child processes\n", hangAfter, len(flights))
 	dir, _ := os.MkdirTemp("", "mux-hang")
 	defer os.RemoveAll(dir)
@@ -666,6 +670,7 @@ func startWatchdog(t *testing.T, r *vr.Report, prop string) func() {
 				last, since = cur, time.Now()
 			} else if time.Since(since) >= hangAfter {
 				reportHang(t, r, prop)
+				since = time.Now()
 			}
 		}
 	}()
@@ -792,7 +797,7 @@ func runProperty(t *testing.T, prop string, configs []*Config, scripted []replay
 		if !res.OK || (res.Panic != "" && len(res.Viol) == 0) {
 			t.Fatalf("INFRA: scenario %s not executable (applied %d events, last %v, panic %q)", sc.Name, res.Applied, res.Events[len(res.Events)-1:], res.Panic)
 		}
-		t.Logf("scenario %s: %d events, %d violation(s)", sc.Name, res.Applied, len(res.Viol))
+		t.Logf("scenario %s: %d events, %d bytes read end to end, %d violation(s)", sc.Name, res.Applied, res.BytesRead, len(res.Viol))
 		for k, n := range res.Outcomes {
 			for j := 0; j < n && j < 3; j++ {
 				r.Outcome(k)
